@@ -28,6 +28,15 @@ CLAIMED = {
     "C06": ("model_checking", "6", "TLC classifies candidate solutions by the problem definition; real checker compared",
             "All feasible solutions, hand-shaped variants, single-fault corruptions and (small N) all sequences are "
             "classified by TLC with the problem definition and fed to the real check_solution_validity."),
+    "C07": ("model_checking", "6", "TLA+ scheduling modules (FJSP/JSSP/FFSP/SMTWTP): problem definition = schedule validity on final tensors; TLC exhaustive + real-env BFS traces validated by TLC",
+            "The scheduling environments are modelled as TLA+ state machines (time advance, waits, machine/job bookkeeping) and model-checked; the "
+            "real environments are expanded over their own masks for small instance families and TLC validates every episode: the final "
+            "start/finish/assignment tensors must form a valid schedule (each operation once, eligible machine, exact duration, job order, "
+            "machine exclusivity) whose makespan is the reported reward; SMTWTP episodes are permutations without the dummy job."),
+    "C08": ("model_checking", "6", "TLA+ selection modules (FLP/MCP/DPP/MDPP) with per-step bookkeeping monitors; TLC exhaustive + real-env BFS traces validated by TLC",
+            "Quota, distinctness, forbidden items, finishing exactly at the quota and the bookkeeping shown to the policy (nearest-facility "
+            "distances, uncovered weights) are TLC monitors over the exhaustive expansion of the real environments (mixed quotas per batch "
+            "included) and invariants of the TLA+ models."),
     "C10": ("model_checking", "6", "exact-arithmetic TLA+ model of the logits pipeline, TLC exhaustive; replay + TLC trace monitors on real process_logits",
             "Logits.tla (mask, temperature, top-k, top-p, normalise on integer weights) is model-checked for all weight vectors x masks x "
             "parameters of a small scope with the clauses of C10 as invariants; every terminal state is replayed into the real "
